@@ -8,6 +8,15 @@ scripts, all merges of small thread programs (announce phases and cancel's
 critical section as separate ops), a corpus, a static check that the state
 writes sit inside `with self._lock`, and a confirmation of predicted hangs /
 non-hangs with the genuine locks in a helper thread with a join timeout.
+Real concurrency: 2-3 real threads run short programs on ONE coordinator under
+the cooperative deterministic scheduler (harness/sched/core.py; the
+coordinator's locks/event come from its shim, plus a yield right after every
+release): every schedule for small trees, every schedule with a bounded
+number of deviations from run-to-block beyond, random/PCT on top; the C17
+oracle is evaluated at every scheduling point and the outcome must be
+linearizable: equal to the extracted model's outcome on some merge of the
+threads' ops (announce_done as three phases, cancel as critical section +
+phases).
 Search oracle: the statement of C17 evaluated on the implementation alone
 along the op sequence.
 """
@@ -161,6 +170,7 @@ class Impl:
         self.in_cb = None
         self.cur_op = None
         self.pre_status = None
+        self.sx_inflight = 0
 
     # ---- values
     def mk_exc(self, k, i):
@@ -224,14 +234,19 @@ class Impl:
             e = self.mk_exc(p[1], int(p[2], 16))
             was_done = f.done()
             before = (c.status, c.exception, c._result)
+            self.sx_inflight += 1
             try:
                 f.set_exception(e)
             except self.ex.TransferNotDoneError:
                 if was_done:
                     self.viol.append(('user-set-exception', 'future.set_exception raised TransferNotDoneError on a done future'))
-                if (c.status, c.exception, c._result) != before:
+                if not self.sched_mode and (c.status, c.exception, c._result) != before:
                     self.viol.append(('user-set-exception', 'future.set_exception raised TransferNotDoneError but changed the state'))
                 return 'notdone'
+            finally:
+                self.sx_inflight -= 1
+            if self.sched_mode:
+                return 'unit'           # other threads may already have moved on: linearizability judges the outcome
             if not was_done:
                 self.viol.append(('user-set-exception', f'future.set_exception accepted although done() was False (status {before[0]})'))
             else:
@@ -399,7 +414,7 @@ class Impl:
                 if reg.runs > 1:
                     V(('callbacks-once', f'{name} {reg.id} (registration #{reg.index}) has run {reg.runs} times after {tok}'))
             ro = self.run_order[kind]
-            if any(a >= b for a, b in zip(ro, ro[1:])):
+            if not self.sched_mode and any(a >= b for a, b in zip(ro, ro[1:])):
                 V(('callbacks-once', f'{name}s ran out of registration order / repeatedly: {ro}'))
         if out == 'DEADLOCK' and not (head in ANNOUNCE_OPS and not pre_done):
             V(('self-deadlock', f'{tok} (status {pre_status}) needs a coordinator lock its own thread holds'
@@ -571,15 +586,429 @@ def merges(lengths):
     return out
 
 
+# ---------------------------------------------------------------- real concurrency
+
+class YLock:
+    """The scheduler shim's Lock plus a yield point right AFTER every release,
+    so that a write slipped out of the critical section is one step away from
+    the other threads."""
+
+    def __init__(self, inner, sched):
+        self._l, self._s = inner, sched
+
+    def acquire(self, *a, **k):
+        return self._l.acquire(*a, **k)
+
+    def release(self):
+        self._l.release()
+        self._s.yield_point('lock.release')
+
+    def locked(self):
+        return self._l.locked()
+
+    def __enter__(self):
+        self._l.acquire()
+        return self
+
+    def __exit__(self, *a):
+        self.release()
+
+
+class SchedNamespace:
+    """what s3transfer.futures sees as `threading` while a coordinator is built"""
+
+    def __init__(self, shim, sched):
+        self._shim = shim
+        self.Lock = lambda: YLock(shim.Lock(), sched)
+
+    def __getattr__(self, name):
+        return getattr(self._shim, name)
+
+
+class DfsChooser:
+    """replays a prefix of choices, then always the first runnable thread;
+    records how many threads were runnable at each step"""
+
+    def __init__(self, prefix):
+        self.prefix, self.widths, self.i = list(prefix), [], 0
+
+    def choose(self, sched, runnable):
+        self.widths.append(len(runnable))
+        c = self.prefix[self.i] if self.i < len(self.prefix) else 0
+        self.i += 1
+        return min(c, len(runnable) - 1)
+
+
+class DevChooser:
+    """Default policy: keep running the thread that ran last while it can run,
+    otherwise the first runnable one (no preemption).  `deviations` maps a step
+    number to the name of the thread to run instead.  Records, per step, who
+    was runnable and who ran, so that the caller can enumerate all schedules
+    with at most K deviations (preemption-bounded search)."""
+
+    def __init__(self, deviations):
+        self.dev = dict(deviations)
+        self.trace = []           # (runnable names, chosen name)
+        self.widths = []
+        self.last = None
+
+    def choose(self, sched, runnable):
+        names = [t.name for t in runnable]
+        k = len(self.trace)
+        pick = names.index(self.last) if self.last in names else 0
+        want = self.dev.get(k)
+        if want is not None and want in names:
+            pick = names.index(want)
+        self.last = names[pick]
+        self.trace.append((names, names[pick]))
+        self.widths.append(len(names))
+        return pick
+
+
+REPLACER_HEADS = ('sr', 'sx')
+
+
+def is_replacer(tok):
+    return tok is not None and (tok.split(':')[0] in REPLACER_HEADS or (tok.startswith('se:') and tok.endswith(':1')))
+
+
+def run_concurrent(env, prefix, programs, chooser):
+    """One real coordinator/future, the prefix run sequentially, then one managed
+    thread per program under the cooperative scheduler.  Returns a dict:
+    results (per thread, per op), final (observation after everything),
+    log, viol [(clause, text)], choices, deadlock."""
+    from harness.sched import core
+    sched = core.Sched(chooser=chooser, max_steps=5000)
+    ns = SchedNamespace(core.Shim(sched), sched)
+    im = Impl(env, sched_ns=ns)
+    c = im.c
+    for tok in prefix:
+        im.do_op(tok)
+    results = [[] for _ in programs]
+    current = [None] * len(programs)
+    viol = []
+    seen = {'done': c.done(), 'core': (c._status, c._exception, c._result)}
+
+    def check(s=None):
+        st, ex, rs = c._status, c._exception, c._result
+        now_done = st in ('failed', 'cancelled', 'success')
+        running = [tk for tk in current if tk is not None]
+        if (ex is not None) != (st in ('failed', 'cancelled')):
+            viol.append(('agreement', f'between critical sections: status {st} with stored exception {ex!r} (ops in flight: {running})'))
+        if seen['done'] and not now_done:
+            viol.append(('done-monotone', f'done() went back to False: status {seen["core"][0]} -> {st} (ops in flight: {running})'))
+        if seen['done'] and (st, ex, rs) != seen['core'] and \
+                not (st == seen['core'][0] and ex is seen['core'][1] and rs is seen['core'][2]) and \
+                not any(is_replacer(tk) for tk in running) and not im.sx_inflight:
+            viol.append(('done-state-frozen',
+                         f'a done transfer changed from ({seen["core"][0]}, {im.canon(seen["core"][1])}, {seen["core"][2]}) to '
+                         f'({st}, {im.canon(ex)}, {rs}) while only {running} were in flight'))
+        seen['done'] = seen['done'] or now_done
+        seen['core'] = (st, ex, rs)
+    sched.on_step = check
+
+    def body(ti):
+        def run():
+            for tok in programs[ti]:
+                sched.yield_point('op')
+                current[ti] = tok
+                try:
+                    out = im.do_op(tok)
+                except core.Killed:
+                    raise
+                except Exception as e:
+                    out = 'EXC:' + type(e).__name__
+                results[ti].append(out)
+                current[ti] = None
+        return run
+    for ti in range(len(programs)):
+        sched.spawn(body(ti), f't{ti}')
+    deadlock = None
+    try:
+        sched.run()
+    except core.Deadlock as d:
+        deadlock = 'deadlock: ' + str(d)
+    except core.Livelock as d:
+        deadlock = 'livelock: ' + str(d)
+    for th in sched.threads:
+        if th.exc is not None:
+            viol.append(('thread-exception', f'{th.name}: {th.exc!r}'))
+    final = None
+    if deadlock is None:
+        for reg in im.regs['C'] + im.regs['K']:
+            if reg.runs > 1:
+                viol.append(('callbacks-once', f'{"done callback" if reg.kind == "C" else "failure cleanup"} {reg.id} ran {reg.runs} times'))
+        n0 = len(im.viol)
+        _, final = im.step('done')         # sequential observation + the oracle on the final state
+        viol += im.viol[n0:]
+    # dedupe keeping order
+    vv = []
+    for v in viol + [x for x in im.viol if x not in viol]:
+        if v[0] not in [a for a, _ in vv]:
+            vv.append(v)
+    return {'results': [list(r) for r in results], 'final': final, 'log': list(im.log), 'viol': vv,
+            'choices': list(sched.choices), 'deadlock': deadlock,
+            'widths': list(getattr(chooser, 'widths', []))}
+
+
+def expand(tok, variant):
+    """model steps of one thread op; variant chooses whether a cancel announces"""
+    if tok == 'ann':
+        return ['ph1', 'ph2', 'ph3']
+    if tok.startswith('cancel:'):
+        ccs = 'ccs:' + tok.split(':', 1)[1]
+        return [ccs, 'ph1', 'ph2', 'ph3'] if variant else [ccs]
+    return [tok]
+
+
+def multinomial(ls):
+    n, r = 0, 1
+    for l in ls:
+        for k in range(1, l + 1):
+            n += 1
+            r = r * n // k
+    return r
+
+
+def model_outcomes(env, prefix, programs, limit=60000):
+    """Every outcome the extracted model allows for the programs run by
+    concurrent threads: all merges (program order kept; announce_done as three
+    separately interleavable phases; cancel as its critical section followed,
+    when it says so, by the phases).  -> set of signatures, or None if too many."""
+    cancel_pos = [(ti, oi) for ti, prog in enumerate(programs) for oi, tok in enumerate(prog) if tok.startswith('cancel:')]
+    lines, metas = [], []
+    total = 0
+    for variant_bits in itertools.product((False, True), repeat=len(cancel_pos)):
+        var = dict(zip(cancel_pos, variant_bits))
+        steps = []      # per thread: [(op index, token, pos in op, len of op)]
+        for ti, prog in enumerate(programs):
+            st = []
+            for oi, tok in enumerate(prog):
+                ex = expand(tok, var.get((ti, oi), False))
+                st += [(oi, mt, k, len(ex)) for k, mt in enumerate(ex)]
+            steps.append(st)
+        total += multinomial([len(s) for s in steps])
+        if total > limit:
+            return None
+        for order in merges([len(s) for s in steps]):
+            pcs = [0] * len(steps)
+            seq, meta = [], []
+            for ti in order:
+                oi, mt, k, n = steps[ti][pcs[ti]]
+                pcs[ti] += 1
+                seq.append(mt)
+                meta.append((ti, oi, k, n))
+            lines.append(f'R | {env} | {" ".join(list(prefix) + seq + ["done"])}')
+            metas.append((meta, var))
+    outs = common.run_model('coord', lines)
+    sigs = set()
+    for (meta, var), out in zip(metas, outs):
+        entries = out.split(' ')
+        if len(entries) != len(prefix) + len(meta) + 1:
+            continue                        # a thread hangs in this merge
+        ok = True
+        res = [[None] * len(p) for p in programs]
+        log = []
+        for e in entries:
+            f = e.split('/', 1)[1].split(',')
+            if f[6] != '-':
+                log += f[6].split('.')
+        for (ti, oi, k, n), e in zip(meta, entries[len(prefix):]):
+            o = e.split('/')[0]
+            tok = programs[ti][oi]
+            if tok.startswith('cancel:'):
+                if k == 0:
+                    if (o == 'T') != var[(ti, oi)]:
+                        ok = False
+                        break
+                elif o != 'unit':
+                    ok = False
+                    break
+                res[ti][oi] = 'unit'
+            elif tok == 'ann':
+                if o != 'unit':
+                    ok = False
+                    break
+                res[ti][oi] = 'unit'
+            else:
+                if tok == 'result' and o == 'blocked':
+                    ok = False      # result() returns only after the event is set
+                    break
+                res[ti][oi] = o
+        if ok:
+            fin = entries[-1].split('/', 1)[1].split(',')
+            sigs.add((tuple(tuple(r) for r in res), tuple(fin[:6] + fin[7:]), tuple(log)))
+    return sigs
+
+
+def real_signature(r):
+    fin = r['final'].split('/', 1)[1].split(',')
+    return (tuple(tuple(x) for x in r['results']), tuple(fin[:6] + fin[7:]), tuple(r['log']))
+
+
+CONC_SETUPS = [
+    # (env, sequential prefix, thread programs)
+    (ENV_PLAIN, ['q', 'r'], [['cancel:c:0'], ['se:o:1:0']]),
+    (ENV_PLAIN, ['q', 'r'], [['cancel:c:0'], ['se:o:1:0'], ['status']]),
+    (ENV_PLAIN, ['q', 'r'], [['sr:7'], ['cancel:c:0']]),
+    (ENV_PLAIN, ['q', 'r'], [['sr:7'], ['se:o:1:0'], ['exc']]),
+    (ENV_PLAIN, ['adc:1', 'afc:1'], [['cancel:c:0'], ['q', 'r']]),
+    (ENV_PLAIN, ['adc:1', 'afc:1'], [['cancel:c:0'], ['cancel:f:3'], ['q']]),
+    (ENV_PLAIN, ['adc:1', 'afc:1', 'q', 'r'], [['se:o:1:0', 'ann'], ['cancel:f:3'], ['done', 'result']]),
+    (ENV_PLAIN, ['adc:1', 'q', 'r'], [['sr:7', 'ann'], ['se:o:2:0', 'ann']]),
+    (ENV_PLAIN, ['adc:1', 'q', 'r', 'se:o:1:0'], [['ann'], ['ann'], ['adc:2']]),
+    ('cb1=sx:o:2,done', ['adc:1', 'q', 'r'], [['sr:7', 'ann'], ['cancel:c:0'], ['se:o:1:0']]),
+    (ENV_PLAIN, ['q', 'r', 'sr:7'], [['sx:o:2'], ['se:o:1:0'], ['q']]),
+    (ENV_PLAIN, ['q'], [['r', 'sr:7'], ['cancel:c:0'], ['se:o:1:1']]),
+]
+
+CONC_OPS = ['sr:7', 'se:o:1:0', 'se:o:2:0', 'se:o:1:1', 'cancel:c:0', 'cancel:f:3', 'q', 'r', 'ann',
+            'done', 'status', 'exc', 'sx:o:2', 'adc:2']
+
+
+def random_setup(rng):
+    while True:
+        prefix = rng.choice([[], ['q'], ['q', 'r'], ['adc:1', 'afc:1'], ['adc:1', 'afc:1', 'q', 'r']])
+        nthreads = rng.choice([2, 2, 3])
+        programs = [[rng.choice(CONC_OPS) for _ in range(rng.choice([1, 1, 2, 3]))] for _ in range(nthreads)]
+        worst = multinomial([sum(len(expand(tk, True)) for tk in p) for p in programs])
+        if worst <= 4000:
+            return (rng.choice([ENV_PLAIN, ENV_PLAIN, 'cb1=sx:o:2,done']), prefix, programs)
+
+
+def concurrent_stream(ctx, rep, thorough):
+    """2-3 real threads on one coordinator under the cooperative scheduler;
+    schedules enumerated exhaustively where the tree is small, random / PCT
+    beyond; every run: C17 oracle at every scheduling point + linearizability
+    against the extracted model."""
+    from harness.sched import core
+    rng = ctx.rng('conc')
+    setups = list(CONC_SETUPS) + [random_setup(rng) for _ in range(60 if thorough else 14)]
+    small_tree = 2000 if thorough else 260       # enumerate every schedule below this many
+    max_dev = 3 if thorough else 2
+    dev_cap = 6000 if thorough else 450
+    rand_runs = 300 if thorough else 40
+    bounded_sets = 0
+    reported = set()
+    exhaustive_sets = 0
+    sigs_seen = 0
+    for si, (env, prefix, programs) in enumerate(setups):
+        sigs = model_outcomes(env, prefix, programs)
+        if sigs is None:
+            continue
+        real_sigs = set()
+
+        def one(chooser, tag):
+            r = run_concurrent(env, prefix, programs, chooser)
+            case = {'env': env, 'prefix': prefix, 'programs': programs, 'choices': r['choices']}
+            ctx.count('coord-concurrent', 1, nontrivial_key=(env, tuple(prefix), tuple(map(tuple, programs)), tuple(r['choices'])),
+                      explore=tag, threads=len(programs))
+            problems = list(r['viol'])
+            if r['deadlock']:
+                problems.append(('hang', r['deadlock']))
+            elif real_signature(r) not in sigs:
+                problems.append(('not-linearizable',
+                                 f'per-thread results {r["results"]}, final state {r["final"]}, callback log {r["log"]} '
+                                 f'is the outcome of NO merge of the threads\' ops in the model ({len(sigs)} outcomes allowed)'))
+            else:
+                real_sigs.add(real_signature(r))
+            for clause, text in problems:
+                if clause in reported:
+                    continue
+                reported.add(clause)
+                ctx.report(f'sched:{clause}:{env}|{prefix}|{programs}',
+                           f'C17 {clause} under a real interleaving: {text}; callbacks "{env}", prefix {prefix}, '
+                           f'thread programs {programs}, schedule (choice list) {r["choices"]}',
+                           {'kind': 'schedule', 'component': 'coord', 'clause': clause, 'case': case})
+            return r
+        # how big is the schedule tree?  (steps per thread in the default run)
+        probe = DevChooser({})
+        one(probe, 'default')
+        per_thread = {}
+        for names, who in probe.trace:
+            per_thread[who] = per_thread.get(who, 0) + 1
+        n, complete = 1, False
+        if multinomial(list(per_thread.values())) <= small_tree:
+            # every schedule
+            prefix_choices = []
+            while True:
+                ch = DfsChooser(prefix_choices)
+                r = one(ch, 'all-schedules')
+                n += 1
+                choices, widths = r['choices'], ch.widths
+                k = len(choices) - 1
+                while k >= 0 and choices[k] + 1 >= widths[k]:
+                    k -= 1
+                if k < 0:
+                    complete = True
+                    break
+                prefix_choices = choices[:k] + [choices[k] + 1]
+        else:
+            # every schedule with at most max_dev deviations from run-to-block
+            queue = [([], probe.trace)]
+            while queue and n < dev_cap:
+                devs, trace = queue.pop(0)
+                start = devs[-1][0] + 1 if devs else 0
+                for s in range(start, len(trace)):
+                    names, chosen = trace[s]
+                    for alt in names:
+                        if alt == chosen or n >= dev_cap:
+                            continue
+                        d2 = devs + [(s, alt)]
+                        ch = DevChooser(d2)
+                        one(ch, f'deviations<={max_dev}')
+                        n += 1
+                        if len(d2) < max_dev:
+                            queue.append((d2, ch.trace))
+            bounded_complete = not queue and n < dev_cap
+            if bounded_complete:
+                bounded_sets += 1
+            for j in range(rand_runs):
+                seed = f'{ctx.seed}:{si}:{j}'
+                ch = core.RandomChooser(seed) if j % 2 == 0 else core.PCTChooser(seed, depth=3, horizon=40)
+                one(ch, 'random' if j % 2 == 0 else 'pct')
+        if complete:
+            exhaustive_sets += 1
+        sigs_seen += len(real_sigs)
+        if si < 2:
+            ctx.sample({'component': 'coord-concurrent', 'env': env, 'prefix': prefix, 'programs': programs,
+                        'schedules_enumerated': n, 'schedule_tree_exhausted': complete,
+                        'model_outcomes_allowed': len(sigs), 'distinct_real_outcomes': len(real_sigs)})
+    comp = ctx.cov['components'].setdefault('coord-concurrent', {'cases': 0, 'hist': {}})
+    comp['program_sets'] = len(setups)
+    comp['program_sets_with_exhausted_schedule_tree'] = exhaustive_sets
+    comp['program_sets_with_all_schedules_up_to_max_deviations'] = bounded_sets
+    comp['max_deviations'] = max_dev
+    comp['distinct_real_outcomes'] = sigs_seen
+
+
+def replay_schedule(case):
+    from harness.sched import core
+    r = run_concurrent(case['env'], case['prefix'], case['programs'], core.ReplayChooser(case['choices']))
+    problems = list(r['viol'])
+    if r['deadlock']:
+        problems.append(('hang', r['deadlock']))
+    else:
+        sigs = model_outcomes(case['env'], case['prefix'], case['programs'])
+        if sigs is not None and real_signature(r) not in sigs:
+            problems.append(('not-linearizable', f'{r["results"]} / {r["final"]}'))
+    return r, problems
+
+
 # ---------------------------------------------------------------- static check
 
 STATE_ATTRS = ('_status', '_exception', '_result')
+STATE_READS = ('done', 'status', '_status', 'exception', '_exception', '_result')
+GUARDED_METHODS = ('cancel', 'set_exception', 'set_result', '_transition_to_non_done_state')
 
 
 def static_atomicity():
     """Every assignment to _status/_exception/_result of TransferCoordinator
-    outside __init__ is inside `with self._lock:`, and announce_done is never
-    called inside it.  Returns a list of problems (fail closed)."""
+    outside __init__ is inside `with self._lock:`, announce_done is never
+    called inside it, and in cancel / set_exception / set_result /
+    _transition_to_non_done_state no read of done()/status/exception happens
+    outside the lock (a decision taken there would be stale by the time the
+    write happens).  Returns a list of problems (fail closed)."""
     path = os.path.join(common.REPO, 's3transfer', 'futures.py')
     try:
         tree = ast.parse(open(path).read())
@@ -613,6 +1042,11 @@ def static_atomicity():
                         found_writes += 1
                         if not locked:
                             problems.append(f'{fname}: write to self.{sub.attr} at line {node.lineno} is not inside `with self._lock`')
+        if fname in GUARDED_METHODS and not locked and isinstance(node, ast.Attribute) and \
+                isinstance(node.ctx, ast.Load) and node.attr in STATE_READS and \
+                isinstance(node.value, ast.Name) and node.value.id == 'self':
+            problems.append(f'{fname}: self.{node.attr} is read at line {node.lineno} outside `with self._lock` '
+                            '(check-then-act: the decision can be stale when the write happens)')
         if isinstance(node, ast.Call) and isinstance(node.func, ast.Attribute) and node.func.attr == 'announce_done' and locked:
             problems.append(f'{fname}: announce_done() called at line {node.lineno} while holding self._lock')
         for ch in ast.iter_child_nodes(node):
@@ -850,7 +1284,7 @@ def run(ctx):
     thorough = ctx.thorough()
     ctx.assumptions = [
         'exceptions given to set_exception are ordinary (truthy) exception instances; result values are not compared for truthiness',
-        'the body of each of set_result / set_exception / cancel (first half) / _transition_to_non_done_state is one critical section under self._lock and announce_done is not called inside it: checked statically on futures.py at every run (ast), not proved',
+        'the body of each of set_result / set_exception / cancel (first half) / _transition_to_non_done_state is one critical section under self._lock (state writes AND the reads that guard them inside it, announce_done not called inside it): checked statically on futures.py (ast) and dynamically by the scheduler-driven linearizability runs at lock-acquire/release granularity, not proved',
         'attribute reads (status, exception, done()) are atomic; callbacks run synchronously in the announcing thread',
         'failure cleanups and done callbacks only act on the coordinator through the TransferFuture API (done, status/meta, result, set_exception, cancel); a callback that lets an exception escape is a shorter script',
         'the coordinator is driven with instrumented lock/event objects (self-acquire -> outcome instead of a hang); a sample is re-run with the genuine threading primitives in a helper thread with a join timeout',
@@ -863,7 +1297,11 @@ def run(ctx):
         f'"{ENV_SCRIPTS}", plus every sequence of length {L + 1} over the 8-op core {CORE} with callbacks "{ENV_CORE}"; '
         '(c) random sequences of length 3..40 over a 36-op alphabet (cancel critical section and the three announce phases as separate ops) '
         'with random callback scripts; (d) every merge (or a seeded sample of 1300 per setup in quick) of 2-3 thread programs; '
-        '(e) sample re-run with genuine locks. Each case: real TransferCoordinator/TransferFuture vs extracted Coq model, '
+        '(e) sample re-run with genuine locks; (f) REAL threads: 2-3 managed threads each running 1-3 ops on one coordinator under the '
+        'cooperative scheduler (yield points: thread start, every op start, every Lock.acquire, after every Lock.release, Event.set/wait): '
+        'all schedules when the tree is small, else all schedules with <= 2 (thorough 3) deviations from run-to-block plus random/PCT; '
+        'checked: C17 oracle at every scheduling point and linearizability against the model (a concurrent case is distinct by '
+        'programs + schedule choice list). Each sequential case: real TransferCoordinator/TransferFuture vs extracted Coq model, '
         'outcome of each op + status/exception/result/event/pending lists/callback log/done()/result() after each op. '
         'A case is distinct by its model command line (callback environment + op sequence); it is non-trivial when some op is executed in a '
         'done state or some callback/cleanup runs; distinct_nontrivial counts the distinct non-trivial ones.')
@@ -900,6 +1338,8 @@ def run(ctx):
     thread_stream(ctx, rep, mism, thorough)
     # (e) genuine locks
     real_lock_confirmation(ctx, rep, pairs)
+    # (f) real threads under the cooperative scheduler: oracle at every scheduling point + linearizability
+    concurrent_stream(ctx, rep, thorough)
 
     # mismatches: property violation on the implementation, or a broken correspondence
     for (case, i, m) in mism[:40]:
@@ -961,6 +1401,12 @@ def replay(ctx, data):
         if clause == 'hang-real':
             return hang_real(env, ops, 2.0)
         return bool(viol)
+    if isinstance(case, dict) and 'programs' in case and 'choices' in case:
+        common.proofs(ctx, 'C17', EXTRACT, COMPONENTS)
+        r, problems = replay_schedule(case)
+        print('results:', r['results'], 'final:', r['final'])
+        print('problems:', problems)
+        return bool(problems)
     if isinstance(case, dict) and 'programs' in case:
         results, hung = guarded(lambda c: run_threads_impl(c['env'], c['prefix'], c['programs'], c['order']), [case], stall_s=5.0)
         return results[0] is None or bool(results[0][1])
